@@ -9,6 +9,7 @@ import (
 	"math/rand"
 	"runtime"
 	"sort"
+	"strings"
 	"sync"
 	"sync/atomic"
 	"testing"
@@ -91,9 +92,12 @@ func (l *c06Log) snapshot() []c06Ev {
 }
 
 type c06Msg struct {
-	N     int
-	Cmd   string // "" work | "shutdown-self" | "stop-child" | "panic"
-	Child *PID
+	// AfterSuspension: the sender's Tell call started after the harness had seen the target
+	// suspended by its fault (set before the call; only meaningful on the supervisor-restart path)
+	AfterSuspension bool
+	N               int
+	Cmd             string // "" work | "shutdown-self" | "stop-child" | "panic"
+	Child           *PID
 }
 
 type c06Actor struct {
@@ -108,6 +112,8 @@ type c06Actor struct {
 	racedStops   atomic.Int64 // PostStop entries that found senders still active
 	busyStops    atomic.Int64 // PostStop entries from another goroutine that found the word held by a Receive
 	stopsThisInc atomic.Int64
+	preDone      atomic.Int64
+	restartDwell time.Duration // PreStart length of incarnations after the first
 }
 
 func (a *c06Actor) PreStart(*Context) error {
@@ -115,12 +121,21 @@ func (a *c06Actor) PreStart(*Context) error {
 	a.log.add(a.name, c06PreStartEnter, gid, "")
 	a.preStarts.Add(1)
 	a.stopsThisInc.Store(0)
-	// a PreStart of realistic length
+	// a PreStart of realistic length; a re-initialisation after a fault takes longer
+	d := 30 * time.Microsecond
+	if n := a.preStarts.Load(); n > 1 && a.restartDwell > 0 {
+		d = a.restartDwell
+	}
 	t0 := time.Now()
-	for time.Since(t0) < 30*time.Microsecond {
-		runtime.Gosched()
+	for time.Since(t0) < d {
+		if d > time.Millisecond {
+			time.Sleep(100 * time.Microsecond)
+		} else {
+			runtime.Gosched()
+		}
 	}
 	a.log.add(a.name, c06PreStartExit, gid, "")
+	a.preDone.Add(1)
 	return nil
 }
 
@@ -170,6 +185,9 @@ func (a *c06Actor) Receive(ctx *ReceiveContext) {
 	m, isMsg := ctx.Message().(*c06Msg)
 	if isMsg {
 		note = m.Cmd
+		if m.AfterSuspension {
+			note += "|sent-after-suspension-seen"
+		}
 	} else {
 		note = fmt.Sprintf("%T", ctx.Message())
 	}
@@ -221,6 +239,7 @@ func (a *c06Actor) Receive(ctx *ReceiveContext) {
 // c06Finding is one automaton verdict.
 type c06Finding struct {
 	Kind   string
+	Sub    string // provenance refinement appended to the signature
 	Actor  string
 	Seq    int64
 	Detail string
@@ -264,6 +283,10 @@ func c06Judge(evs []c06Ev) []c06Finding {
 		case c06RecvEnter:
 			if s.inc == 0 || !s.preDone {
 				add("receive-before-prestart-complete", e.Actor, "%v in incarnation %d (PreStart in progress=%v)", e, s.inc, s.inPre)
+				if strings.Contains(e.Note, "sent-after-suspension-seen") {
+					// not backlog: this message's Tell call began after the suspension had been observed and was accepted
+					out[len(out)-1].Sub = "sent-during-restart"
+				}
 			}
 			if s.psOpen && s.psGid != e.Gid {
 				add("receive-overlaps-poststop", e.Actor, "%v entered while PostStop of incarnation %d runs on goroutine %d", e, s.inc, s.psGid)
@@ -342,22 +365,24 @@ func c06GenKnobs(rng *rand.Rand, i int) c06Knobs {
 }
 
 type c06Obs struct {
-	Knobs     c06Knobs
-	Findings  []c06Finding
-	Overlaps  []c06Overlap
-	Events    int
-	Receives  int64
-	PostStops int64
-	Raced     bool // the target's PostStop began while senders were still sending
-	Busy      bool // ... and found a Receive in progress on another goroutine
-	Stopped   bool
-	Watchdog  string
-	HotSites  []string
-	Yields    int64
-	Delays    int64
-	StopErr   string
-	APIPanics []string // panics of framework API calls recovered by the harness (not this property's verdict)
-	evs       []c06Ev
+	Knobs                   c06Knobs
+	Findings                []c06Finding
+	Overlaps                []c06Overlap
+	Events                  int
+	Receives                int64
+	PostStops               int64
+	Raced                   bool // the target's PostStop began while senders were still sending
+	Busy                    bool // ... and found a Receive in progress on another goroutine
+	Stopped                 bool
+	Watchdog                string
+	HotSites                []string
+	Yields                  int64
+	Delays                  int64
+	StopErr                 string
+	SuspensionSeen          bool     // supervisor-restart: a sender or the harness saw IsSuspended() before the restart ended
+	AcceptedAfterSuspension int64    // sends whose Tell call began after that and returned nil
+	APIPanics               []string // panics of framework API calls recovered by the harness (not this property's verdict)
+	evs                     []c06Ev
 }
 
 // window returns the log around a finding, restricted to its actor and the stop calls.
@@ -421,6 +446,10 @@ func c06RunCase(t *testing.T, k c06Knobs, seed int64) c06Obs {
 
 	parentAct := &c06Actor{log: lg, name: "parent"}
 	targetAct := &c06Actor{log: lg, name: "target", dwell: k.Dwell}
+	if k.Path == "supervisor-restart" {
+		// the window in which a send could reach the re-initialising actor
+		targetAct.restartDwell = time.Duration(1000+rng.Intn(2000)) * time.Microsecond
+	}
 	sibAct := &c06Actor{log: lg, name: "sibling", dwell: k.Dwell}
 
 	parent, err := sys.Spawn(ctx, "parent", parentAct, WithLongLived())
@@ -474,7 +503,8 @@ func c06RunCase(t *testing.T, k c06Knobs, seed int64) c06Obs {
 	keepGoing := k.Path == "restart-external" || k.Path == "passivate-time" || k.Path == "supervisor-restart"
 	// on the restart paths the senders keep sending until the restarts are over, so that
 	// traffic is present while the new incarnation's PreStart runs
-	var restartsDone atomic.Bool
+	var restartsDone, suspensionSeen atomic.Bool
+	var acceptedAfterSuspension atomic.Int64
 	untilDone := k.Path == "restart-external" || k.Path == "supervisor-restart"
 	for s := 0; s < k.Senders; s++ {
 		wg.Add(1)
@@ -484,7 +514,17 @@ func c06RunCase(t *testing.T, k c06Knobs, seed int64) c06Obs {
 			defer wg.Done()
 			defer lg.sendersActive.Add(-1)
 			for i := 0; i < k.Burst || (untilDone && !restartsDone.Load() && i < 300000); i++ {
-				err := Tell(ctx, target, &c06Msg{N: i})
+				m := &c06Msg{N: i}
+				if k.Path == "supervisor-restart" {
+					if !suspensionSeen.Load() && target.IsSuspended() {
+						suspensionSeen.Store(true)
+					}
+					m.AfterSuspension = suspensionSeen.Load()
+				}
+				err := Tell(ctx, target, m)
+				if err == nil && m.AfterSuspension {
+					acceptedAfterSuspension.Add(1)
+				}
 				if err != nil && untilDone {
 					runtime.Gosched()
 				}
@@ -556,8 +596,13 @@ func c06RunCase(t *testing.T, k c06Knobs, seed int64) c06Obs {
 		// the supervisor's Restart directive re-initialises the suspended actor (no PostStop, new PreStart)
 		stopCall("Tell(target,panic) with Restart directive", func() error { return Tell(ctx, target, &c06Msg{Cmd: "panic"}) })
 		wantStops = 0
-		if !verifrt.WaitUntil(30*time.Second, func() bool { return targetAct.preStarts.Load() >= 2 }) {
-			obs.Watchdog = "no second PreStart within 30s after a failure with Restart directive"
+		if !verifrt.WaitUntil(30*time.Second, func() bool {
+			if !suspensionSeen.Load() && target.IsSuspended() {
+				suspensionSeen.Store(true)
+			}
+			return targetAct.preDone.Load() >= 2
+		}) {
+			obs.Watchdog = "no second PreStart completed within 30s after a failure with Restart directive"
 		}
 		time.Sleep(time.Duration(rng.Intn(500)) * time.Microsecond)
 		restartsDone.Store(true)
@@ -627,6 +672,8 @@ func c06RunCase(t *testing.T, k c06Knobs, seed int64) c06Obs {
 	obs.Receives = targetAct.handled.Load() + sibAct.handled.Load() + parentAct.handled.Load()
 	obs.PostStops = targetAct.postStops.Load() + sibAct.postStops.Load() + parentAct.postStops.Load()
 	obs.Raced = targetAct.racedStops.Load() > 0
+	obs.SuspensionSeen = suspensionSeen.Load()
+	obs.AcceptedAfterSuspension = acceptedAfterSuspension.Load()
 	obs.Busy = targetAct.busyStops.Load()+sibAct.busyStops.Load() > 0
 	obs.evs = evs
 	return obs
